@@ -10,6 +10,9 @@ INVARIANTS
   RelayStateRoundTrips
   ExistingQueryPreserved
   IdpRecovers
+  DeliveredToDestination
+  IdpAcceptsDestination
+  OneStepIsFirstLocation
   MessageIntact
   SignedOctetsExact
   RefusesMismatch
